@@ -173,6 +173,36 @@ def _argument_binding(ctx, repo) -> None:
             ctx.check("C29.args", v, not problems, f"{label}: " + "; ".join(problems) + ": with this calling convention the guard looks at another argument than the one the operation writes or destroys - a pre-existing path is overwritten, or a created one left behind", what=label, stmt=label)
 
 
+def _open_modes(ctx, repo) -> None:
+    """_is_write_mode interpreted over every mode string open() accepts (one of r/w/a/x, optional +, optional
+    b/t, in any order): it says `write` exactly for the modes that can change or create the file."""
+    import itertools
+
+    from sa.engine import peval
+
+    fn = repo.func(FS, f"{CLS}._is_write_mode")
+    ctx.analysed(fn)
+    modes = set()
+    for kind in "rwax":
+        for plus in ("", "+"):
+            for enc in ("", "b", "t"):
+                for perm in itertools.permutations([c for c in (kind, plus, enc) if c]):
+                    modes.add("".join(perm))
+    bad = []
+    for mode in sorted(modes):
+        try:
+            got = bool(peval.Interp(resolver=peval.repo_resolver(repo)).run_function(fn, [mode], {}, repo.module(FS)))
+        except (peval.Undecided, peval.Raises) as exc:
+            ctx.undecide("C29.modes", fn, f"{mode!r}: {exc}")
+            continue
+        want = any(c in mode for c in "wax+")
+        if got != want:
+            bad.append((mode, got))
+        else:
+            ctx.ok("C29.modes", fn, f"mode {mode!r} -> {'write' if want else 'read'}")
+    ctx.check("C29.modes", fn, not bad, f"_is_write_mode misjudges {[m for m, _g in bad][:8]} (answers {[g for _m, g in bad][:8]}): open() on a pre-existing file in such a mode is neither refused nor recorded, so the code under test rewrites the file in place and it stays changed", what="all open() modes classified", stmt="[modes]")
+
+
 def _cwd_independence(ctx, repo) -> None:
     """_abspath interpreted for a relative name before and after the working directory changed, with the
     memoisation of cached helpers modelled (one cache for both calls, as in one process)."""
@@ -222,6 +252,8 @@ def _cwd_independence(ctx, repo) -> None:
 
 def check(ctx) -> None:
     repo = ctx.repo
+    ctx.rule("C29.modes", "ABSINT: _is_write_mode over every mode string open() accepts (r/w/a/x, +, b/t in any order) answers write exactly for the modes that can change or create the file", floor=40)
+    _open_modes(ctx, repo)
     ctx.rule("C29.cwd", "ABSINT: _abspath of a relative name follows the current working directory although helpers are memoised (the cache is modelled across a chdir)", floor=2)
     _cwd_independence(ctx, repo)
     ctx.rule("C29.args", "ABSINT: the tracked wrappers, interpreted around stubs with the signatures of the real os / shutil / pathlib callables, test / record / forget exactly the values python binds to the parameters named by the patch table - for positional, keyword and mixed calls", floor=25)
